@@ -32,6 +32,14 @@ import (
 	"verif/harness/lib/srv"
 )
 
+var phaseWall = map[string]time.Duration{}
+
+func timed(name string, f func()) {
+	t := time.Now()
+	f()
+	phaseWall[name] += time.Since(t)
+}
+
 func phaseA(r *ev.Run, rng *rand.Rand) {
 	cfgs := srv.NewConfigs(1, func(i int, c *config.Config) {
 		// without a running raft cluster placement rules cannot be switched on (pd answers
@@ -79,8 +87,8 @@ func phaseA(r *ev.Run, rng *rand.Rand) {
 		e.threeWays(d.mk())
 		r.Count("directed_cases", 1)
 	}
-	e.getEditSet()
-	e.concurrentDirect(g, r.Pick(12, 100))
+	timed("get-edit-set", e.getEditSet)
+	timed("concurrent-direct", func() { e.concurrentDirect(g, r.Pick(12, 100)) })
 }
 
 type directedCase struct {
@@ -176,7 +184,7 @@ func phaseB(r *ev.Run, rng *rand.Rand) {
 	g := &gen{rng: rng}
 	ru.runPhase(g, r.Pick(8, 40), r.Pick(45, 60))
 	if ru.ready() {
-		ru.concurrentRunning(r.Thorough())
+		timed("concurrent-running", func() { ru.concurrentRunning(r.Thorough()) })
 	}
 }
 
@@ -205,8 +213,15 @@ func main() {
 		r.Seed, r.Tier, r.Shard, r.Shards = doc.Seed, doc.Tier, doc.Shard, doc.Shards
 	}
 	rng := rand.New(rand.NewSource(r.ShardSeed()))
+	t0 := time.Now()
 	phaseA(r, rng)
+	t1 := time.Now()
 	phaseB(r, rng)
+	// observability only
+	r.Set("phase_wall_s", map[string]float64{"created-server phases": t1.Sub(t0).Seconds(), "running-server phases": time.Since(t1).Seconds()})
+	for k, d := range phaseWall {
+		r.Set("wall_s_"+k, d.Seconds())
+	}
 	r.Floor(int64(r.Pick(3000, 10000)))
 	if r.Counter("faults_injected_fail-before") == 0 || r.Counter("faults_injected_lost-ack") == 0 || r.Counter("reload_comparisons") == 0 || r.Counter("leader_change_comparisons") == 0 {
 		r.Inconclusive("a monitored event class was never observed: %s", fmt.Sprint(map[string]int64{
